@@ -122,7 +122,17 @@ func checkC08(c *core.Ctx) {
 		if f.Program != nil && *f.Program > 127 {
 			class = fmt.Sprintf("program=%d", *f.Program)
 		}
-		judgeWellFormed(c, "dedicated", i, p, f, randWriteOpts(r), class)
+		o := randWriteOpts(r)
+		switch r.Intn(6) {
+		case 0:
+			o.extra = append(o.extra, "--debug") // logging must stay off the output
+		case 1:
+			// any value of the dynamics flag: accepted ones must give a well-formed file, others are refused
+			o.extra = append(o.extra, "--velocity", []string{"pp", "p", "mp", "mf", "f", "ff", "fff", "F", "m", "0", "ppp"}[r.Intn(11)])
+		case 2:
+			o.extra = append(o.extra, "--bpm", fmt.Sprint(model.RandBPM(r)), "--meter", []string{"3/4", "7/8", "12/16", "1/1", "255/128"}[r.Intn(5)])
+		}
+		judgeWellFormed(c, "dedicated", i, p, f, o, class)
 	})
 
 	// boundary probes
